@@ -1,2 +1,41 @@
-(* C10_maven -- statements are being written. *)
-From DepsDev Require Import Lib.Base.
+(* C10, Maven part: a version's canonical string denotes the same version.  Statements only. *)
+From DepsDev Require Import Lib.Base Semver.Version Semver.Compare Semver.Maven Semver.MavenParse Semver.MavenDomain
+  Semver.Maven_proofs Semver.Canon_mg_proofs.
+Local Open Scope Z_scope.
+
+(* The full statement, over all accepted strings (mvn_roundtrip s = the canonical string, and
+   for its re-parse the comparison with the original and the second canonical string). *)
+Definition C10_maven_full : Prop := forall s c r,
+  mvn_roundtrip s = Some (c, r) -> r = Some (0, c).
+
+(* It is false on the code as it stands (F-C10-2): a version that starts with a separator keeps
+   the separator on its first element, which mavenExtension.canon never prints: -1 prints as 1,
+   and 1 compares 45 against -1. *)
+Theorem C10_maven_reparse_refuted : ~ C10_maven_full.
+Proof.
+  intros F. destruct maven_leadsep_witness as [W _]. specialize (F _ _ _ W). discriminate.
+Qed.
+Print Assumptions C10_maven_reparse_refuted.
+
+(* Consequently two versions with the same canonical string may compare different. *)
+Theorem C10_maven_inj_refuted :
+  mvn_roundtrip s_m1 = Some (s_one, Some (45, s_one)) /\ mvn_roundtrip s_one = Some (s_one, Some (0, s_one)) /\
+  mvn_cmp_str s_m1 s_one = Some 45.
+Proof. exact (conj (proj1 maven_leadsep_witness) (conj (proj2 maven_leadsep_witness) maven_inj_witness)). Qed.
+
+(* The root cause, for all element lists: the printer does not depend on the separator of the
+   first element ... *)
+Theorem C10_maven_canon_head : forall l, maven_canon (head_sep0 l) = maven_canon l.
+Proof. exact maven_canon_head. Qed.
+Print Assumptions C10_maven_canon_head.
+
+(* ... while on the domain of C01 a list whose first separator is 0 compares equal to itself:
+   when the canonical string re-parses to the same elements (which the harness checks on every
+   generated string by kinds sv_canon / svm_canon_maven) the three clauses hold exactly for
+   the versions that do not start with a separator.  The print/parse inversion itself
+   (re-parsing the printed elements gives the same elements: tokenisation, the a/b/m shortcut
+   and the trimming loop are fixed points on parser outputs) is NOT a theorem here. *)
+Theorem C10_maven_same_elements_partial : forall l, d_mvn_wide (head_sep0 l) = true -> l = head_sep0 l ->
+  maven_compare l (head_sep0 l) = Ok 0.
+Proof. exact maven_reparse_same. Qed.
+Print Assumptions C10_maven_same_elements_partial.
